@@ -25,11 +25,14 @@ pub fn contract_octet_to_bits<C: Ctx>(cx: &mut C) {
 /// C07 unit 3 — `bit_string_to_octet_string` on concrete lengths with symbolic contents:
 /// Err exactly when the length is not a multiple of 8; otherwise byte j = sum bit[8j+i]*2^(7-i).
 /// bounded: lengths listed in BIT_LENGTHS.
-const BIT_LENGTHS: &[usize] = &[0, 1, 7, 8, 9, 16];
-pub fn contract_bits_to_octets<C: Ctx>(cx: &mut C) {
+const BIT_LENGTHS_QUICK: &[usize] = &[0, 1, 7, 8, 9];
+const BIT_LENGTHS_THOROUGH: &[usize] = &[15, 16, 17, 24];
+pub fn contract_bits_to_octets<C: Ctx>(cx: &mut C) { contract_bits_to_octets_lens(cx, BIT_LENGTHS_QUICK) }
+pub fn contract_bits_to_octets_long<C: Ctx>(cx: &mut C) { contract_bits_to_octets_lens(cx, BIT_LENGTHS_THOROUGH) }
+fn contract_bits_to_octets_lens<C: Ctx>(cx: &mut C, lens: &[usize]) {
     let mut li = 0;
-    while li < BIT_LENGTHS.len() {
-        let len = BIT_LENGTHS[li];
+    while li < lens.len() {
+        let len = lens[li];
         cx.note("len", len);
         let mut bits: Vec<bool> = Vec::with_capacity(len);
         let mut i = 0;
@@ -61,5 +64,6 @@ pub fn contract_bits_to_octets<C: Ctx>(cx: &mut C) {
 mod kani_harness {
     use super::*;
     #[kani::proof] #[kani::unwind(10)] fn k_c07_octet_to_bits() { contract_octet_to_bits(&mut KaniCtx) }
-    #[kani::proof] #[kani::unwind(18)] fn k_c07_bits_to_octets() { contract_bits_to_octets(&mut KaniCtx) }
+    #[kani::proof] #[kani::unwind(11)] fn k_c07_bits_to_octets() { contract_bits_to_octets(&mut KaniCtx) }
+    #[kani::proof] #[kani::unwind(26)] fn k_c07_bits_to_octets_long() { contract_bits_to_octets_long(&mut KaniCtx) }
 }
